@@ -1,5 +1,7 @@
 import AkVerif.Lemmas.LLFactAll
 import AkVerif.Lemmas.LLSession
+import AkVerif.Lemmas.LLExpand3
+import AkVerif.Lemmas.LLTokens
 /-!
 # C01 — every parse result is a valid derivation of the user's grammar
 
@@ -49,6 +51,17 @@ theorem factorize_ok (terms : List Sym) (U G : Prods Sym) (S : List Sym) (smart 
     FactRelD U G S ∧ (G.map (·.1)).Nodup :=
   factRelD_factorize hU hterm h
 
+/-- **Factorisation keeps the order of the alternatives** (both settings): reading the rules of a
+user symbol `X` in the factorised dictionary from left to right and replacing every trailing helper
+symbol by the expansions of its rules, recursively and in order (`ExpandsAll`), reproduces exactly the
+list of the user's alternatives of `X`, in the user's order — so the priority of alternatives (which
+decides the tree of an ambiguous text) is the one the user wrote. -/
+theorem factorize_ordered (terms : List Sym) (U G : Prods Sym) (S : List Sym) (smart : Bool)
+    (hU : UserWF U) (hterm : ∀ t ∈ terms, t.path = []) (h : factorize terms U smart = .ok (G, S))
+    (X : Sym) (rulesU : List (Rule Sym)) (hX : (X, rulesU) ∈ U) :
+    ∃ rulesG, dget X G = some rulesG ∧ ExpandsAll G S (rulesG.map (·.rhs)) (rulesU.map (·.rhs)) :=
+  factorize_expands hU hterm h X rulesU hX
+
 /-- **The property, composed** for the parser the constructor builds (both `smart_factorization`
 values, any synonyms / keywords / skip set), for every token list and every fuel: a returned tree
 is rooted at the start symbol, is a derivation tree of the *user's* productions whose leaves are
@@ -71,6 +84,20 @@ theorem parse_valid (inp : CtorIn) (P : Parser) (hP : construct inp = .ok P)
   have h1 := verifyPart1_ok hB.hV
   obtain ⟨hD, _⟩ := factRelD_of_built hB
   exact parse_sound_of_rel hB.core (factRel_of_D h1 hD) (start_user_of_built hB hstart) raw hEnd fuel t h
+
+/-- **The hypothesis `hEnd` follows from the constructor's arguments**: when the lexemes come from the
+tokenizer's groups and `$END$` is not among `get_all_token_names()` (no group, synonym target or
+keyword target is called `$END$`), no token before the final one is named `$END$` — every name
+`tokenize` can produce (synonyms first, then keywords on the renamed token) is one of those names. -/
+theorem tokens_no_end (inp : CtorIn) (P : Parser) (hP : construct inp = .ok P)
+    (hend : endSym ∉ tokenNames inp) (raw : List (List Char × List Char))
+    (hraw : ∀ r ∈ raw, r.1 ∈ inp.groups) :
+    ∀ tok ∈ (P.tokens raw).dropLast, tok.name ≠ endSym :=
+  LL.tokens_no_end (construct_built hP).hsyn (construct_built hP).hkw hend hraw
+
+/-- **Names are modelled faithfully**: decoding a Python name into a structured symbol (base name +
+path of helper indices) and printing it back is the identity, for every string. -/
+theorem names_faithful (n : List Char) : (parseSym n).name = n := name_parseSym n
 
 /-- **The same for `parse(text, start_symbol_name=s)`** with `s` any key of `productions`: the tree is
 rooted at `s` and is a derivation of the user's grammar from `s` (the documented "parse a fragment"
